@@ -51,9 +51,20 @@ def mix_case(draw):
         comps.append(c)
     if draw(st.integers(0, 5)) == 0:
         comps[1] = comps[0]
-    if draw(st.integers(0, 2)) == 0:
-        pool = RICH_POOL if L in ('BensonGA', 'PPY') else [x.replace('{M}', metal) for x in RICH_SURFACE]
+    mode = draw(st.integers(0, 5))
+    pool = RICH_POOL if L in ('BensonGA', 'PPY') else [x.replace('{M}', metal) for x in RICH_SURFACE]
+    if mode in (0, 1):
         comps = [draw(st.sampled_from(pool)) for _ in range(n)]
+    elif mode == 2:
+        # a component with correction descriptors next to one that changes a whole-molecule property
+        # (olefinic / aromatic / cyclic / radical / charged): whole-molecule pattern prefixes are what could couple them
+        env = ['C=C', 'CC=CC', 'c1ccccc1', 'C1CCCCC1', 'C1CC1', 'C#C', '[CH3]', 'C=O', 'CO', 'O', 'C[CH2]', 'C=CC=C', 'Cc1ccccc1']
+        comps = [draw(st.sampled_from(pool)), draw(st.sampled_from(env))]
+        if draw(st.booleans()):
+            comps.reverse()
+    elif mode == 3 and draw(st.integers(0, 2)) == 0:
+        # long chains: more than a thousand embeddings of one pattern in the disconnected species, not in a component
+        comps = ['C' * draw(st.sampled_from([16, 21, 22, 24])), 'C' * draw(st.sampled_from([18, 22, 23, 26]))]
     return dict(kind='mix', lib=L, comps=comps)
 
 
